@@ -77,8 +77,7 @@ def path_lengths(kids, root, n):
     dist = {}
     for i in range(n):
         for j in range(i + 1, n):
-            common_nodes = [v for v in A[i] if v in A[j]]
-            v = min(common_nodes, key=lambda v: A[i][v])
+            v = next(v for v in A[i] if v in A[j])    # the first common node on the way up (branches may be negative: not the nearest)
             dist[i, j] = A[i][v] + A[j][v]
     return dist
 
@@ -185,6 +184,30 @@ def run(chk):
             bad['_upgma'] = b
     outs = drv.ask_many(['nj|%d|%s' % (len(m), ' '.join(f2b(v) for r in m for v in r)) for m, _ in mats])
     bad['_neighbor'] = [i for i, o in enumerate(outs) if parse_rows(o) != reals['_neighbor'][i]]
+    # --- the reading of a tree matrix: Lean `decode` (the object C09_nj_path_sums speaks about) == the harness's own path sums ---
+    dec_q, dec_want = [], []
+    for i, (m, _s) in enumerate(mats):
+        for which in ('_upgma', '_neighbor'):
+            rows = reals[which][i]
+            try:
+                kids, root = decode(rows, len(m))
+            except ValueError:
+                continue
+            dec_q.append('dec|%d|%s|%s' % (len(m), ' '.join('%d %d' % (a, b) for a, b, _x, _y in rows),
+                                            ' '.join('%s %s' % (f2b(x), f2b(y)) for _a, _b, x, y in rows)))
+            dec_want.append(path_lengths(kids, root, len(m)))
+    dec_bad = []
+    for q, o, want in zip(dec_q, drv.ask_many(dec_q), dec_want):
+        got = {}
+        body = o[2:].strip()
+        for e in (body.split(' ; ') if body else []):
+            a, b, v = e.split()
+            got[min(int(a), int(b)), max(int(a), int(b))] = b2f(v)
+        if got != want:
+            dec_bad.append((q, sorted(got.items())[:4], sorted(want.items())[:4]))
+    chk.obligation('correspondence:reading of a tree matrix - Lean decode (row t creates node n+t, path = depth + branch on either side) == path sums '
+                   'computed by the harness from the rows of _upgma / _neighbor (bit-exact)', 'correspondence', not dec_bad,
+                   'tree matrices=%d mismatches=%d %r' % (len(dec_q), len(dec_bad), dec_bad[:1]))
     drv.close()
     # --- oracles ---
     for i, (m, sname) in enumerate(mats):
